@@ -31,19 +31,23 @@ def validate(ctx, recfile, label):
     for c in (cases[len(cases) // 3], cases[(2 * len(cases)) // 3])[: 1 if len(ctx.cov["samples"]) else 2]:
         ctx.sample({k: c[k] for k in c if k not in ("id",)})
     r = ctx.tlc("C25Trace", "C25Trace.cfg", env={"VERIF_CASES": recfile}, timeout=1500, name=label)
-    for v in r.violations:
+    for nv, v in enumerate(r.violations):
+        if nv >= 40:
+            break       # a badly broken tree violates thousands of cases: forty replays are enough
         ci = r.var(v, "ci")
         if ci is None or ci < 1:
             raise vlib.Infra("cannot locate failing case in TLC output (%s)" % r.logfile)
         c = cases[ci - 1]
-        # reproduce: re-run this single case through the real code and TLC
-        one = ctx.path("one-%s-%d.ndjson" % (label, ci))
-        vlib.write_ndjson(one + ".in", [{k: c[k] for k in ("kind", "a", "b", "nodes") if k in c}])
-        ctx.vhrun(["c25-run", one + ".in", one])
-        r2 = ctx.tlc("C25Trace", "C25Trace.cfg", env={"VERIF_CASES": one}, timeout=300, workers=1, name="repro")
-        if not r2.violations:
-            raise vlib.Infra("violation of case %d did not reproduce" % ci)
-        rec = vlib.read_ndjson(one)[0]
+        rec = c
+        if nv < 5:
+            # reproduce: re-run this single case through the real code and TLC
+            one = ctx.path("one-%s-%d.ndjson" % (label, ci))
+            vlib.write_ndjson(one + ".in", [{k: c[k] for k in ("kind", "a", "b", "nodes") if k in c}])
+            ctx.vhrun(["c25-run", one + ".in", one])
+            r2 = ctx.tlc("C25Trace", "C25Trace.cfg", env={"VERIF_CASES": one}, timeout=300, workers=1, name="repro")
+            if not r2.violations:
+                raise vlib.Infra("violation of case %d did not reproduce" % ci)
+            rec = vlib.read_ndjson(one)[0]
         ctx.fail(sig(c), case={k: c[k] for k in ("kind", "a", "b", "nodes") if k in c},
                  observed={k: rec.get(k) for k in ("merge", "inter", "compl", "err", "errNodes", "vals", "inputsIntact")},
                  detail="TLC invariant %s violated (spec C25Trace; oracle SetClosure.LeastSolution / IntSets.Sem)" % v["name"])
